@@ -72,6 +72,18 @@ def final_connect_model(ctx, repo, rule):
     r0 = one_pass()
     ctx.ob(rule, "GeckoSpa._loop_func::nothing-before-the-first-block", r0 is None and not built and not told and connected() is False,
            f"an engine pass before the first complete status block: outcome {r0!r}, accessors built {len(built)} time(s), facade told {len(told)} time(s), is_connected {connected()!r}", lf.loc)
+    # ... also when the handshake has been going on for a long time (every step inside its own retry budget, the whole
+    # longer than any connection timeout): the engine thread calls _loop_func unprotected - what it raises ends the thread,
+    # and with it every send, receive, retry and clean-up
+    started = {k_: v_ for k_, v_ in spa.attrs.items() if "started" in k_ and v_ == 99.0}
+    for k_ in started:
+        spa.attrs[k_] = 100.0 - 100000.0
+    r_slow = one_pass()
+    ctx.ob(rule, "GeckoSpa._loop_func::survives-a-slow-handshake", r_slow is None and not built and not told,
+           f"an engine pass before the first complete block of a handshake that began 100000 s ago: outcome {r_slow!r} (accessors built {len(built)}, facade told {len(told)}) - "
+           f"the per-pass hook runs on the engine thread outside any try: an exception there stops the engine for good", lf.loc)
+    for k_, v_ in started.items():
+        spa.attrs[k_] = v_
     struct.attrs["had_at_least_one_block"] = True
     r1 = one_pass()
     ok1 = r1 is None and len(built) == 1 and len(built[0]) == 2 and built[0][0] is cfg_c and built[0][1] is log_c and told == [spa] and connected() is True
